@@ -105,19 +105,28 @@ PLAIN_OUT = Obj(
 )
 
 
-@lemma("C17", params=dict(ds=DS, frame=PLAIN_OUT), stubs=APCI_STUBS + SECURE_DATA_STUBS)
-def a_sent_frame_uses_up_its_number_and_a_refused_one_changes_nothing(ds, frame):
+@lemma("C17", params=dict(ds=DS, frame=PLAIN_OUT, other=ANY_SENDER), stubs=APCI_STUBS + SECURE_DATA_STUBS)
+def a_sent_frame_uses_up_its_number_and_a_refused_one_changes_nothing(ds, frame, other):
     """outgoing_cemi for a keyed group address, any counter state (also past the end): either the frame
     leaves carrying exactly the stored number (at most 48 bit) and the stored number grows by one, or
     DataSecureError is raised and the stored number is unchanged - in particular it never goes *down*, so a
-    number is never used twice and exhaustion is permanent."""
+    number is never used twice and exhaustion is permanent. Sending never touches the table of known senders
+    (frame: any address, the frame's own source included, is known afterwards exactly if it was before, with
+    the same last number) - an unknown sender stays unknown whatever this side sends."""
     old = ds._sequence_number_sending
     keyed = frame.dst_addr in ds._group_key_table
+    table = ds._individual_address_table
+    known_before, last_before = other in table, table.get(other, -1)
+    src_known_before, src_last_before = frame.src_addr in table, table.get(frame.src_addr, -1)
     try:
         out = ds.outgoing_cemi(frame)
     except DataSecureError:
         assert keyed and old > MAX48 and ds._sequence_number_sending == old
         return
+    finally:
+        assert ds._individual_address_table is table
+        assert (other in table) == known_before and table.get(other, -1) == last_before
+        assert (frame.src_addr in table) == src_known_before and table.get(frame.src_addr, -1) == src_last_before
     if not keyed:
         assert out is frame and ds._sequence_number_sending == old
         return
